@@ -5,6 +5,7 @@
 
 #include <cnl/overflow_integer.h>
 #include <cnl/rounding_integer.h>
+#include <cnl/scaled_integer.h>
 #include <cmath>
 
 namespace c06 {
@@ -415,6 +416,57 @@ void total_forms(char const* desc)
                 run("builtin<<wrapper", a, (T)c, i < nl, [&] { auto r = a << wc; (void)r; });
                 run("builtin>>wrapper", a, (T)c, i < nl, [&] { auto r = a >> wc; (void)r; });
             }
+    }
+    t.emit();
+}
+
+//  conversion of a scaled_integer<Rep, power<E>> source to a built-in integer under a checked tag (convert<Tag, D> and the
+//  overflow_integer<D, Tag> constructor): only the event kind is judged (C06 quantifies over built-in and floating-point sources);
+//  a returned value that differs from the exact / clamped one is counted as information
+template<class TG, class Rep, int E, class D, int EntryPoint>
+void convert_scaled(char const* desc)
+{
+    if (!kernel_selected(desc)) return;
+    using Tag = typename TG::tag;
+    using S = cnl::scaled_integer<Rep, cnl::power<E>>;
+    Tally t(desc);
+    Rng rng(mix(env_seed(), hash_str(desc)));
+    std::vector<Rep> as = values_for<Rep>();
+    size_t nl = as.size();
+    for (int i = 0; i < 2000; ++i) as.push_back(rand_val<Rep>(rng));
+    for (size_t i = 0; i < as.size(); ++i) {
+        if (t.closed) { ++t.notrun; continue; }
+        Rep a = as[i];
+        S s = cnl::_impl::from_rep<S>(a);
+        X exact;
+        if constexpr (E >= 0) exact = shl(X::of(a), (unsigned)E);
+        else {
+            X q, r;
+            X::divmod(X::of(a), shl(X::from_u(1), (unsigned)-E), q, r);
+            if (r.neg) q = q - X::from_u(1);  // floor (the shift the conversion performs); either neighbour is in range iff the other is, except next to a bound
+            exact = q;
+        }
+        X got;
+        Outcome o = guarded([&] {
+            if constexpr (EntryPoint == E_OPERATE) got = X::of(cnl::convert<Tag, D>{}(s));
+            else {
+                cnl::overflow_integer<D, Tag> r{s};
+                got = X::of(cnl::_impl::to_rep(r));
+            }
+        });
+        bool nt = i < nl && (is_boundary(a) || near_bound<D>(exact));
+        auto in = [&] { return "rep " + istr(a) + " * 2^" + std::to_string(E); };
+        bool own_signal = (TG::id == 1 && (o.kind == THROW_POS || o.kind == THROW_NEG)) || (TG::id == 2 && (is_overflow_abort(o, 1) || is_overflow_abort(o, -1)));
+        if (o.kind == VALUE || own_signal) {
+            t.held(o, nt);
+            bool over = exact > xmax<D>() || exact < xmin<D>();
+            if (over && own_signal) t.classes["scaled_source_overflow_signalled(info)"]++;
+            else if (over && o.kind == VALUE && TG::id == 0 && got == (exact.neg ? xmin<D>() : xmax<D>())) t.classes["scaled_source_overflow_clamped(info)"]++;
+            else if (over) t.classes["scaled_source_overflow_not_handled(info)"]++;
+            else if (o.kind == VALUE && got != exact) t.classes["scaled_source_value_differs(info)"]++;
+            t.sample(nt, in, [&] { return std::string("a value or the tag's own signal (no undefined operation)"); }, [&] { return outcome_str(o, got.str()); });
+        } else
+            t.violation(c07_class(o) + ":convert_scaled", o, in(), "a value or the tag's own signal (no undefined operation)", outcome_str(o, got.str()), nt);
     }
     t.emit();
 }
